@@ -108,6 +108,7 @@ type Lemma struct {
 	PkgPath string
 	Props   []string
 	Steps   []LemmaStep
+	InlineAll bool // callees of the lemma package are executed, not replaced by their contracts
 	File    string
 	Line    int
 }
@@ -214,6 +215,10 @@ func ParseContracts(dir, pkgPath string) (*PkgContracts, error) {
 			pc.Lemmas = append(pc.Lemmas, lm)
 			curLemma = lm
 			cur = nil
+		case "inlineall":
+			if curLemma != nil {
+				curLemma.InlineAll = true
+			}
 		case "forall":
 			if curLemma == nil {
 				return nil, fmt.Errorf("%s:%d: forall outside lemma", file, l.no)
